@@ -1798,8 +1798,8 @@ void Router::markPolylineConnectorsNeedingReroutingForDeletedObstacle(
             continue;
         }
 
-        Point start = conn->m_route.ps[0];
-        Point end = conn->m_route.ps[conn->m_route.size() - 1];
+        const Point connStart = conn->m_route.ps[0];
+        const Point connEnd = conn->m_route.ps[conn->m_route.size() - 1];
 
         double conndist = conn->m_route_dist;
 
@@ -1813,6 +1813,12 @@ void Router::markPolylineConnectorsNeedingReroutingForDeletedObstacle(
         {
             const Point& p1 = i->point;
             const Point& p2 = i->shNext->point;
+
+            // The rotation case below transforms the endpoints into the
+            // frame of this edge, so start from the connector's actual
+            // endpoints for every edge of the obstacle.
+            Point start = connStart;
+            Point end = connEnd;
 
             double offy;
             double a;
